@@ -1,12 +1,12 @@
 (* Prop_C02.v — property theorems for C02, and nothing else: each statement is closed
    by `exact <lemma>` and followed by Print Assumptions. *)
 From Dig Require Import Base Sig State Graph GraphProofs Register Resolve Run Spec Check
-  ErrTable Err ErrTableCheck P_Once.
+  ErrTable Err ErrTableCheck P_Once P_Frame P_Term.
 
-(* ---- C02: singletons (every code of chk_C02 except the crash code 204,
-        which is C05/C14's termination claim) ---- *)
-Theorem C02_singletons_partial : forall cfg b du h,
-  P_Once.wf_fns h = true -> cfg_dry cfg = false ->
-  forall i c, In (i, c) (chk_C02 h (map obs_of (run cfg b du h))) -> c = 204.
-Proof. exact P_Once.chk_once_ok. Qed.
-Print Assumptions C02_singletons_partial.
+(* ---- C02: singletons.  wf_keys: single keys carry no group name, group keys
+        carry one (what every parsed signature satisfies, P_Parse.C09_provide_keys) ---- *)
+Theorem C02_holds : forall cfg b du h,
+  wf_scopes h = true -> wf_keys h = true -> P_Once.wf_fns h = true -> cfg_dry cfg = false ->
+  chk_C02 h (map obs_of (run cfg b du h)) = [].
+Proof. exact P_Term.chk_C02_nil. Qed.
+Print Assumptions C02_holds.
